@@ -50,7 +50,8 @@ def _run_case(args):
                 return {"name": name, "kind": kind, "status": "skipped: anchor absent"}
             out = src.replace(old, new)
         try:
-            compile(out, rel, "exec")
+            if rel.endswith(".py"):
+                compile(out, rel, "exec")
         except SyntaxError as e:
             return {"name": name, "kind": kind, "status": f"broken-case: does not compile ({e})"}
         target.write_text(out)
